@@ -346,7 +346,7 @@ var (
 	c19MarkerS2C  = int32(packetid.ClientboundPacketIDGuard) - 1
 	c19MarkerC2S  = int32(57)
 	errC19End     = errors.New("c19: end marker")
-	c19RunTimeout = 10 * time.Second
+	c19RunTimeout = 30 * time.Second
 )
 
 // ---------------------------------------------------------------------------------------------
@@ -1335,8 +1335,8 @@ func c19RunListen(l c19ListenCase) string {
 			return nil
 		}})
 		var jerr error
-		for try := 0; try < 50; try++ { // until Listen is up
-			jerr = cl.JoinServerWithOptions(addr, bot.JoinOptions{MCDialer: &mcnet.Dialer{Timeout: 2 * time.Second}})
+		for try := 0; try < 400; try++ { // until Listen is up (generous: the machine may be loaded)
+			jerr = cl.JoinServerWithOptions(addr, bot.JoinOptions{MCDialer: &mcnet.Dialer{Timeout: 10 * time.Second}})
 			if jerr == nil || !strings.Contains(jerr.Error(), "connect server") {
 				break
 			}
@@ -1345,7 +1345,7 @@ func c19RunListen(l c19ListenCase) string {
 		return cl, rl, classifyJoinErr(jerr)
 	}
 	recv := func(cl *bot.Client, rl *recvLog) string {
-		_ = cl.Conn.Socket.SetReadDeadline(time.Now().Add(3 * time.Second))
+		_ = cl.Conn.Socket.SetReadDeadline(time.Now().Add(15 * time.Second))
 		herr := cl.HandleGame()
 		out := rl.String()
 		if !errors.Is(herr, errC19End) {
@@ -1361,7 +1361,7 @@ func c19RunListen(l c19ListenCase) string {
 	defer a.Close()
 	okPings := 0
 	for i := 0; i < l.pings; i++ {
-		if js, _, e := bot.PingAndListTimeout(addr, 2*time.Second); e == nil && strings.HasPrefix(canonStatus(js), "L:7665726966:") {
+		if js, _, e := bot.PingAndListTimeout(addr, 10*time.Second); e == nil && strings.HasPrefix(canonStatus(js), "L:7665726966:") {
 			okPings++
 		}
 	}
